@@ -200,8 +200,10 @@ def copyRef (X : Ctx) : Nat → Ref → Memo → M (Ref × Memo)
         let cd := X.cd c
         if cd.dnc then pure (.obj i, m)     -- `if self.__spec_class__.do_not_copy: return self`
         else do
-          let j ← alloc (.inst c thaw [])   -- `self.__class__.__new__(self.__class__)`
-          let m1 ← copyFields (copyRef X fuel) cd j c thaw [] fs m
+          -- `self.__class__.__new__(self.__class__)`; the initialisation marker of the source (set while its
+          -- `__init__`/`thawed()` window is open) is not part of the copy
+          let j ← alloc (.inst c false [])
+          let m1 ← copyFields (copyRef X fuel) cd j c false [] fs m
           (if cd.postCopy then callCb .postCopy else pure ())
           pure (.obj j, (i, j) :: m1)
 
